@@ -156,6 +156,17 @@ class C13(Property):
         "Flatland.C13.Proofs.find_fq_unnamed",
         "Flatland.C13.Proofs.tokenize_slash2",
         "Flatland.C13.Proofs.C13_empty_name_fails_top_partial",
+        # p2 (Proofs/C13Empty, Proofs/Lemmas/PathScanEmpty): empty path steps at any depth; find_fq_addressable,
+        # find_fq_iff, C13_key_mismatch_fails above are now the statements WITHOUT namedFrom
+        "Flatland.Path.Lemmas.tokenize_sufJoin",
+        "Flatland.C13.Proofs.tokenize_fqName_empty",
+        "Flatland.C13.Proofs.tokenize_fqName_of_empty",
+        "Flatland.C13.Proofs.find_fq_empty",
+        "Flatland.C13.Proofs.find_fq_iff_pathOK",
+        "Flatland.C13.Proofs.C13_empty_name_fails",
+        "Flatland.C13.Proofs.find_fq_addressable_named",
+        "Flatland.C13.Proofs.find_fq_iff_named",
+        "Flatland.C13.Proofs.C13_key_mismatch_fails_named",
     ]
     extra_proof_modules = ["Proofs.C13Unspellable"]
     generated_obligations = []
@@ -187,11 +198,11 @@ class C13(Property):
         "key None: find_fq_unnamed (in EVERY tree an unnamed first-level field of a mapping root is found, alone, by its "
         "fq_name() '//', from every start, strict or not; find_slash2, tokenize_slash2, fqName_empty_top) and its "
         "negative twin C13_empty_name_fails_top_partial (KF-C13-b at the first level: a field that emits the empty step "
-        "but is not the one stored under None breaks the law: LookupError, or the unnamed sibling). The general theorems "
-        "(find_fq_addressable, find_fq_iff, C13_key_mismatch_fails) carry the explicit hypothesis namedFrom (no unnamed "
-        "field on the way): deeper unnamed fields need tokenize on emitted strings with empty segments and are tied to "
-        "the code by correspondence; the Lean runner re-checks spellable -> (law <-> addressable), unnamed fields "
-        "included, on every generated tree. NOT proved necessary in general: the two unspellable classes (a Dict field named '' — KF-C13-b, "
+        "but is not the one stored under None breaks the law: LookupError, or the unnamed sibling). Since round p2 the general theorems "
+        "(find_fq_addressable, find_fq_iff, C13_key_mismatch_fails) hold WITHOUT namedFrom: tokenize_fqName_empty handles "
+        "empty steps at any depth ('///y', '/l/0//z'), find_fq_iff_pathOK needs no hypothesis on the tree, and "
+        "C13_empty_name_fails makes KF-C13-b a general theorem (everything at or below a field named '' fails from every "
+        "start); the Lean runner still re-checks spellable -> (law <-> addressable) on every generated tree. NOT proved necessary in general: the two unspellable classes (a Dict field named '' — KF-C13-b, "
         "C13_full_fails; anything below a name ending in a backslash — KF-C13-a, C13_full_fails_backslash) are still "
         "refuted by one witness each, because the converse there needs the tokenizer on arbitrary (ill-formed) emitted "
         "strings; the Lean runner re-checks the iff on every spellable position of every generated tree and the "
